@@ -21,7 +21,6 @@ RULE = ('seeded generation: source/target tables of 0..12 rows over int/str/numb
         'distinct = case hash; non-trivial = >=1 matched and >=1 unmatched target row, or >=1 multi-row group')
 ASSUMPTIONS = [
     'keys are compared as rendered strings (null renders "None"); no string value equals "None"',
-    'sum over strings: concatenation in either direction accepted (order undocumented)',
     'order of full-outer tail rows and of deduplication output is not judged',
     'numeric results compared numerically (Decimal(2) == 2.0)',
     'order of the appended fields in the target schema is not judged',
@@ -111,17 +110,30 @@ def run_case(case):
         for i, r in enumerate(S):
             r['k'] = i if i < nkeys else rng.randrange(nkeys)
     # key shape
-    shape = rng.choice(['list_same', 'list_diff', 'composite', 'fmt_literal', 'rownum', 'fmt_rownum', 'equal_but_distinct'])
+    shape = rng.choice(['list_same', 'list_diff', 'composite', 'fmt_literal', 'rownum', 'fmt_rownum', 'equal_but_distinct',
+                        'fmt_spec', 'list_odd_name'])
     if spill:
         shape = rng.choice(['list_same', 'fmt_literal'])
     if mode == 'dedup' and shape in ('list_diff', 'rownum', 'fmt_rownum'):
         shape = 'composite'
+    odd_name = None
+    if shape == 'list_odd_name':
+        # a key given as a LIST names fields literally, whatever characters the names contain
+        odd_name = rng.choice(['geo.code', '2020', 'dc:id', 'x[0]', 'k!r', 'a b', '{k}'])
+        shape = 'list_same'
+    fspec = rng.choice([':03', '!s', ':>4', '!r:>5'])
     tk_names = {'list_same': ['k'], 'list_diff': ['tk'], 'composite': ['k', 'k2'], 'fmt_literal': ['tk'],
-                'rownum': [], 'fmt_rownum': ['tk'], 'equal_but_distinct': ['k']}[shape]
+                'rownum': [], 'fmt_rownum': ['tk'], 'equal_but_distinct': ['k'], 'fmt_spec': ['tk']}[shape]
     source_key = {'list_same': ['k'], 'list_diff': ['k'], 'composite': ['k', 'k2'],
-                  'fmt_literal': 'K-{k}', 'rownum': ['#'], 'fmt_rownum': '{#}', 'equal_but_distinct': ['k']}[shape]
+                  'fmt_literal': 'K-{k}', 'rownum': ['#'], 'fmt_rownum': '{#}', 'equal_but_distinct': ['k'],
+                  'fmt_spec': 'K-{k%s}' % fspec}[shape]
     target_key = {'list_same': ['k'], 'list_diff': ['tk'], 'composite': ['k', 'k2'],
-                  'fmt_literal': '{tk}', 'rownum': ['#'], 'fmt_rownum': '{tk}', 'equal_but_distinct': ['k']}[shape]
+                  'fmt_literal': '{tk}', 'rownum': ['#'], 'fmt_rownum': '{tk}', 'equal_but_distinct': ['k'],
+                  'fmt_spec': '{tk}'}[shape]
+    if shape == 'fmt_spec':
+        for r in S:         # a format spec cannot render null
+            if r['k'] is None:
+                r['k'] = 0
     if shape == 'equal_but_distinct':
         # key values that compare (and hash) equal but RENDER differently are different keys
         EQ = [D('1'), D('1.0'), D('1.00'), 1, 1.0, True, D('2'), 2]
@@ -145,12 +157,14 @@ def run_case(case):
             row['k2'] = rng.choice(['x', 'y', 'zz', 'w'])
         elif shape == 'fmt_literal':
             row['tk'] = 'K-%s' % kv
+        elif shape == 'fmt_spec':
+            row['tk'] = ('K-{k%s}' % fspec).format(k=0 if kv is None else kv)
         elif shape == 'fmt_rownum':
             row['tk'] = rng.randint(1, max(1, ns + 1))
         T.append(row)
     t_fields = [('tid', 'integer'), ('keep', 'string')] + \
                [(n, {'k': 'integer' if shape != 'equal_but_distinct' else 'any', 'k2': 'string'}.get(
-                   n, 'string' if shape == 'fmt_literal' else 'integer')) for n in tk_names]
+                   n, 'string' if shape in ('fmt_literal', 'fmt_spec') else 'integer')) for n in tk_names]
     # fields mapping
     fields, ref_fields = {}, {}
     naggs = rng.randint(1, 4)
@@ -174,6 +188,13 @@ def run_case(case):
             r['have'] = rng.choice([None, 77])
         fields['have'] = {'name': 'v', 'aggregate': 'max'}
         ref_fields['have'] = {'name': 'v', 'aggregate': 'max', '_name_given': True}
+    if boot.rng(case['seed'], 'C11', 'shared', case['idx']).random() < 0.12 and not pre_existing:
+        # two entries of the mapping share ONE specification object (dict.fromkeys(['v', 'w'], {...}))
+        shared = {'aggregate': rng.choice(['max', 'min', 'first', 'any'])}
+        fields['v'] = fields['w'] = shared
+        ref_fields['v'] = {'name': 'v', 'aggregate': shared['aggregate'], '_name_given': True}
+        ref_fields['w'] = {'name': 'w', 'aggregate': shared['aggregate'], '_name_given': True}
+        cov['key_shape']['mapping_entries_sharing_one_spec_object'] = 1
     wildcard = rng.random() < 0.15
     if wildcard:
         # type-preserving aggregates only: '*' maps source fields onto same-named target fields
@@ -192,14 +213,48 @@ def run_case(case):
            'source_delete': source_delete, 'shape': shape, 'ns': ns, 'nt': nt}
     sf = gen.schema_fields([(n_, 'any' if (n_ == 'k' and shape == 'equal_but_distinct') else t_) for n_, t_ in SRC_FIELDS])
     if mode == 'dedup':
-        steps = [lab.source('src', sf, S),
-                 d.join_with_self('src', copy.deepcopy(source_key), copy.deepcopy(fields))]
         exp_rows, exp_tail = refmodel.join(S, [], source_key, None, ref_fields, None, SRC_FIELDS)
     else:
-        steps = [lab.source('src', sf, S), lab.source('tgt', gen.schema_fields(t_fields), T),
-                 d.join('src', copy.deepcopy(source_key), 'tgt', copy.deepcopy(target_key),
-                        copy.deepcopy(fields), mode=mode, source_delete=source_delete)]
         exp_rows, exp_tail = refmodel.join(S, T, source_key, target_key, ref_fields, mode, SRC_FIELDS)
+    if odd_name:
+        # the whole case is computed with the key field called 'k'; now call it by its odd name everywhere
+        def rk(x):
+            return odd_name if x == 'k' else x
+
+        def rrow(r):
+            return {rk(k_): v_ for k_, v_ in r.items()}
+        S, T = [rrow(r) for r in S], [rrow(r) for r in T]
+        exp_rows, exp_tail = [rrow(r) for r in exp_rows], [rrow(r) for r in exp_tail]
+        source_key, target_key = [rk(x) for x in source_key], [rk(x) for x in target_key]
+        t_fields = [(rk(n_), t_) for n_, t_ in t_fields]
+        tk_names = [rk(x) for x in tk_names]
+        for spec_ in list(fields.values()) + list(ref_fields.values()):
+            if spec_ and spec_.get('name') == 'k':
+                spec_['name'] = odd_name
+        fields = {rk(k_): v_ for k_, v_ in fields.items()}
+        ref_fields = {rk(k_): v_ for k_, v_ in ref_fields.items()}
+        sf = [dict(f_, name=rk(f_['name'])) for f_ in sf]
+        cfg.update(source_key=source_key, target_key=target_key, fields=fields, shape='list_odd_name')
+        cov['key_shape']['list_odd_name'] = 1
+    # the SAME key / fields objects are handed to the step twice (second use): a step must not corrupt its arguments
+    second_use = boot.rng(case['seed'], 'C11', 'reuse', case['idx']).random() < 0.2 and not spill
+
+    def build():
+        if mode == 'dedup':
+            return [lab.source('src', sf, S),
+                    d.join_with_self('src', copy.deepcopy(source_key), copy.deepcopy(fields))]
+        return [lab.source('src', sf, S), lab.source('tgt', gen.schema_fields(t_fields), T),
+                d.join('src', copy.deepcopy(source_key), 'tgt', copy.deepcopy(target_key),
+                       copy.deepcopy(fields), mode=mode, source_delete=source_delete)]
+    if second_use:
+        cov['key_shape']['second_use_of_the_same_argument_objects'] = 1
+        cfg['second_use'] = True
+        with lab.arg_reuse('record'):
+            lab.run(build())
+        with lab.arg_reuse('replay'):
+            steps = build()
+    else:
+        steps = build()
     got = lab.run(steps)
     sample = {'config': cfg, 'source': gen.render(S[:5], 500), 'target': gen.render(T[:5], 400)}
 
